@@ -385,4 +385,14 @@ def stateBefore (s : State) : Nat → List TEv → State
     | some s' => stateBefore s' n es
     | none => s
 
+
+/-! ## the poll thread's reconnect callback (modulebase.py:706-713, 766-774) -/
+
+/-- `trigger_all`: `last_main = 0` for every polled module of the thread (and the trigger event is set) -/
+def triggerAll (lastMain : Nat → Nat) (polled : List Nat) : Nat → Nat :=
+  fun m => if polled.contains m then 0 else lastMain m
+
+/-- the poll loop calls `doPoll` of module m in a turn at time `now` iff `now > last_main + interval` -/
+def pollDue (lastMain interval : Nat → Nat) (now m : Nat) : Bool := decide (lastMain m + interval m < now)
+
 end Frappy.Comm
